@@ -216,7 +216,7 @@ def main(tier):
         for kind, msg in r['problems']:
             cls = r['kind'].split(':')[0]
             run.violation(f'{kind}/{classify(r, msg)}', f'{kind}: {msg[:250]}', {'cnl': r['text'], 'program': r['program'], 'message': msg})
-    run.coverage['programs'] = stats
+    run.coverage['program_stats'] = stats
     for r in results[-3:]:
         if 'program' in r:
             run.sample({'cnl': r['text'][:300], 'program': r['program'][:300]})
